@@ -82,11 +82,16 @@ def designed_variants(rng):
     out.append(V("desc-plain", described("plain"), {}, rng))         # ... and without one
     # the same pair without source annotation: the per-field code of the two modules is identical, they differ only in the
     # calls that keep described fields in step (the wrapper around the per-field code)
+    # twins whose generated texts differ only in non-ASCII characters of the field names (what an ASCII rendering of the text loses)
+    out.append(V("ea1eb2-noann", fam_of([I("d\u00e9", 1), I("d\u00e8", 2)]), {"annotate": False}, rng))
+    out.append(V("eb1ea2-noann", fam_of([I("d\u00e8", 1), I("d\u00e9", 2)]), {"annotate": False}, rng))
+    out.append(V("ea1eb2", fam_of([I("d\u00e9", 1), I("d\u00e8", 2)]), {}, rng))
+    out.append(V("eb1ea2", fam_of([I("d\u00e8", 1), I("d\u00e9", 2)]), {}, rng))
     out.append(V("desc-auto-noann", described("autolength"), {"annotate": False}, rng))
     out.append(V("desc-plain-noann", described("plain"), {"annotate": False}, rng))
     for v in out:
         v.kind = "designed"
-    twins = {"aca1bab2": "bab1aca2", "desc-auto": "desc-plain", "desc-auto-noann": "desc-plain-noann", "i1i2": "i2i1", "i1d2": "d1i2", "i2i1-unpackonly": "i1i2-unpackonly", "i2i1-packonly": "i1i2-packonly"}
+    twins = {"aca1bab2": "bab1aca2", "ea1eb2-noann": "eb1ea2-noann", "ea1eb2": "eb1ea2", "desc-auto": "desc-plain", "desc-auto-noann": "desc-plain-noann", "i1i2": "i2i1", "i1d2": "d1i2", "i2i1-unpackonly": "i1i2-unpackonly", "i2i1-packonly": "i1i2-packonly"}
     for a, b in twins.items():
         for v in out:
             if v.tag == a:
